@@ -181,11 +181,15 @@ class Collector:
         self.nt_evals = 0
         self.classes = {}
         self.samples = []
-        self.failures = {}  # signature -> (size, case, detail)
+        self.failures = {}  # signature -> (size, case, detail, origin)
         self.excluded = {}
+        self.origin = None  # the shard's arguments: with the case's index, enough to re-run its history
+        self.limit = None  # replay of a history: only the first `limit` cases are executed
 
     def run_case(self, case):
         self.evals += 1
+        if self.limit is not None and self.evals > self.limit:
+            return
         _publish_case(case)
         try:
             self._run_case(case)
@@ -225,7 +229,7 @@ class Collector:
         size = len(canon(case))
         cur = self.failures.get(sig)
         if cur is None or size < cur[0]:
-            self.failures[sig] = (size, case, v.detail)
+            self.failures[sig] = (size, case, v.detail, {"shard": list(self.origin), "index": self.evals} if self.origin else None)
 
 
 def _hyp_settings(n):
@@ -393,8 +397,9 @@ def _run_jobs(jobs, ncpu):
         shutil.rmtree(tmp, ignore_errors=True)
 
 
-def _run_shard(args):
-    """Worker: run one part of one check on one shard; returns picklable summary."""
+def _run_shard(args, limit=None):
+    """Worker: run one part of one check on one shard; returns picklable summary.  With `limit`
+    only the first `limit` cases are executed (replay of a history-dependent failure)."""
     modname, part_name, n, seed, shard, nshards, tier = args
     os.environ["VERIF_TIER"] = tier
     signal.signal(signal.SIGALRM, _alarm)
@@ -403,6 +408,8 @@ def _run_shard(args):
         mod = __import__(modname, fromlist=["x"])
         part = [p for p in mod.parts() if p.name == part_name][0]
         col = Collector(part, load_known(mod.PROPERTY))
+        col.origin = args
+        col.limit = limit
         t0 = time.time()
         if part.exhaustive is not None and part.strategy is None:
             for i, case in enumerate(part.exhaustive(tier)):
@@ -499,6 +506,8 @@ def shrink_case(part, case, sig, budget_s=120):
                 yield float(int(x))
 
     cur = case
+    if not fails(cur):
+        return cur  # does not fail alone (history-dependent): nothing to shrink against
     improved = True
     while improved and time.time() < t_end:
         improved = False
@@ -606,7 +615,7 @@ def run_check(mod, tier="quick", seed=1, replay=None, only_part=None, replay_inn
     nviol = 0 if rc_regress == 0 else 1
     rc = rc_regress
     for pname, a in by_part.items():
-        for sig, (_size, case, detail) in sorted(a["failures"].items()):
+        for sig, (_size, case, detail, origin) in sorted(a["failures"].items()):
             p = part_by_name[pname]
             small = case
             if os.environ.get("VERIF_NO_SHRINK") != "1":
@@ -614,16 +623,37 @@ def run_check(mod, tier="quick", seed=1, replay=None, only_part=None, replay_inn
                     small = shrink_case(p, case, sig, budget_s=60 if tier == "quick" else 240)
                 except Exception:
                     small = case
+            alone = False
             try:
                 p.run(small)
                 d2 = detail
             except Violation as v:
                 d2 = v.detail
+                alone = v.signature(p.name) == sig
+            except BudgetExceeded:
+                d2 = detail
+                alone = Violation("nontermination").signature(p.name) == sig
             except BaseException:
                 d2 = detail
+            # A case that failed in its shard but passes alone in this (fresh) process failed
+            # because of what the cases before it left behind in the library: the replay file then
+            # names the shard and the case's index, and replaying re-runs that history.
+            # "alone" is decided in a FRESH process (this one has run the regression tier, other
+            # shrinks and witnesses): the shrunk case first, else the case as found, else its history
+            history = None
             path = write_replay(prop, pname, sig, small, d2)
+            if not _fails_in_fresh_process(mod, path, sig):
+                path = write_replay(prop, pname, sig, case, detail)
+                if _fails_in_fresh_process(mod, path, sig):
+                    small, d2 = case, detail
+                else:
+                    history = origin
+                    path = write_replay(prop, pname, sig, case, detail, history)
+                    small, d2 = case, detail
             print(f"VIOLATION property={prop} replay={path}")
             print(f"  signature: {sig}")
+            if history:
+                print(f"  note: history-dependent - the case passes when run alone in a fresh process; it failed as case {history['index']} of its shard, and the replay file re-runs that shard's cases up to it")
             print(f"  detail: {d2[:1500]}")
             nviol += 1
             rc = 1
@@ -694,10 +724,25 @@ def replay_regressions(mod):
     return rc, n
 
 
-def write_replay(prop, part, sig, case, detail):
+def _fails_in_fresh_process(mod, path, sig):
+    """Does the replay file at `path` report signature `sig` when replayed in a new process?"""
+    import subprocess
+
+    try:
+        r = subprocess.run([sys.executable, "-m", "vlib.run", mod.PROPERTY, "--replay", path], cwd=VERIF_DIR, timeout=(CONFIRM_WALL + 60) * 20, capture_output=True, text=True)
+    except subprocess.TimeoutExpired:
+        return True
+    if r.returncode != 1:
+        return False
+    return ("signature: " + sig) in r.stdout or "nontermination" in r.stdout
+
+
+def write_replay(prop, part, sig, case, detail, history=None):
     d = os.path.join(VERIF_DIR, "replay", prop)
     os.makedirs(d, exist_ok=True)
     body = {"property": prop, "part": part, "signature": sig, "detail": detail[:4000], "case": case}
+    if history:
+        body["history"] = history
     h = hashlib.sha1(canon({"part": part, "sig": sig}).encode()).hexdigest()[:12]
     path = os.path.join(d, f"{h}.json")
     with open(path, "w") as f:
@@ -711,8 +756,15 @@ def do_replay(mod, parts, path, inner=False):
 
         import resource
 
+        try:
+            with open(path if os.path.isabs(path) else os.path.join(VERIF_DIR, path)) as f:
+                is_history = bool(json.load(f).get("history"))
+        except Exception:
+            is_history = False
+        cpu = int(CONFIRM_WALL) + 60 if not is_history else 4 * 3600
+
         def limit():
-            resource.setrlimit(resource.RLIMIT_CPU, (int(CONFIRM_WALL) + 60, int(CONFIRM_WALL) + 65))
+            resource.setrlimit(resource.RLIMIT_CPU, (cpu, cpu + 5))
 
         try:
             r = subprocess.run([sys.executable, "-m", "vlib.run", mod.PROPERTY, "--replay-inner", path], cwd=VERIF_DIR, timeout=(CONFIRM_WALL + 60) * 20, capture_output=True, text=True, preexec_fn=limit)
@@ -730,6 +782,21 @@ def do_replay(mod, parts, path, inner=False):
     with open(path if os.path.isabs(path) else os.path.join(VERIF_DIR, path)) as f:
         body = json.load(f)
     p = [q for q in mod.parts() if q.name == body["part"]][0]
+    if body.get("history"):
+        # re-run the shard the case came from, up to and including the case
+        h = body["history"]
+        res = _run_shard(tuple(h["shard"]), limit=int(h["index"]))
+        if res.get("error"):
+            sys.stdout.write("HARNESS-ERROR property=%s\n%s\n" % (mod.PROPERTY, res["error"]))
+            return 2
+        f = res["failures"].get(body["signature"])
+        if f is not None:
+            print(f"VIOLATION property={mod.PROPERTY} replay={path}")
+            print(f"  signature: {body['signature']} (after the {f[3]['index'] - 1} cases that preceded it in its shard)")
+            print(f"  detail: {f[2][:3000]}")
+            return 1
+        print(f"replay: {path} (a history of {h['index']} cases) passes on this tree")
+        return 0
     try:
         p.run(body["case"])
     except Violation as v:
